@@ -391,7 +391,10 @@ class Program:
         if k in ("deref", "opaque_cast", "unwrap_binder"):
             return v
         if k == "field":
-            return proj(v, ("f", e.get("name", e["i"])))
+            nm = e.get("name", e["i"])
+            if isinstance(nm, str) and nm.isdigit():
+                nm = int(nm)      # tuple-struct / tuple-variant payloads: same key as tuple fields
+            return proj(v, ("f", nm))
         if k == "downcast":
             return proj(v, ("v", e["variant"]))
         if k == "cindex":
@@ -484,7 +487,8 @@ class Program:
                 elems = []
                 for e in place["p"]:
                     if e["k"] == "field":
-                        elems.append(("f", e.get("name", e["i"])))
+                        nm = e.get("name", e["i"])
+                        elems.append(("f", int(nm) if isinstance(nm, str) and nm.isdigit() else nm))
                     elif e["k"] == "downcast":
                         elems.append(("v", e["variant"]))
                     elif e["k"] == "cindex":
@@ -582,7 +586,7 @@ class Program:
             ops = [self.val_operand(fn, loc, o, body) for o in rv["ops"]]
             if a == "adt":
                 name = rv["adt"] + ("::" + rv["variant"] if rv["is_enum"] else "")
-                names = rv["fields"]
+                names = [int(n) if n.isdigit() else n for n in rv["fields"]]
                 if "active_field" in rv:
                     names = [names[rv["active_field"]]]
                 return ("agg", "adt", name, tuple(zip(names, ops)))
